@@ -167,7 +167,7 @@ static void explore(report& r, bool thorough, int group, int ngroups)
                 auto chk = hep::make_multi_channel_chkpt<T>(minw, beta);
                 chk.channels(c);
                 node<T> n{chk.channel_weights(), p, tn + " C=" + std::to_string(c) + " p=" + std::to_string(p) + " init=default"};
-                if (r.want_prefix(tn)) { if (!r.a().replay) check_state(r, n.w, n.path, "default weights"); }
+                if (r.want(n.path)) { r.eval(); check_state(r, n.w, n.path, "default weights"); }
                 if (seen.insert(hash_vec(n.w, vf::splitmix64(1000 + p))).second) { frontier.push_back(n); r.state(); }
             }
             std::vector<sz> idx(c, 0);
@@ -181,8 +181,9 @@ static void explore(report& r, bool thorough, int group, int ngroups)
                     auto chk = hep::make_multi_channel_chkpt<T>(u, minw, beta);
                     chk.channels(c);
                     node<T> n{chk.channel_weights(), p, tn + " C=" + std::to_string(c) + " p=" + std::to_string(p) + " init=" + show(u)};
-                    if (!r.a().replay)
+                    if (r.want(n.path))
                     {
+                        r.eval();
                         r.transition();
                         bool ok = check_state(r, n.w, n.path, "constructor(" + show(u) + ")");
                         for (sz i = 0; ok && i != c; ++i)
